@@ -299,34 +299,34 @@ def noNum : String → Bool := fun _ => false
 /-- **counterexample (invalid UTF-8)**: the 6-byte input `a\xffb: c` yields a file range ending at byte 8: the
     invalid byte is read as U+FFFD and counted as `RuneLen(U+FFFD) = 3` -/
 theorem C02_cx_invalid_utf8 :
-    rootStopByte (parseFile ⟨false, false⟩ noNum [97, 255, 98, 58, 32, 99] false) = some 8 ∧
-    modelRangesOk ⟨false, false⟩ noNum [97, 255, 98, 58, 32, 99] false = some false := by
+    rootStopByte (parseFile ⟨false, false, false⟩ noNum [97, 255, 98, 58, 32, 99] false) = some 8 ∧
+    modelRangesOk ⟨false, false, false⟩ noNum [97, 255, 98, 58, 32, 99] false = some false := by
   decide +kernel
 
 /-- the same input in UTF-16 mode is fine (one unit per replaced byte) -/
-theorem C02_invalid_utf8_u16_ok : modelRangesOk ⟨false, false⟩ noNum [97, 255, 98, 58, 32, 99] true = some true := by
+theorem C02_invalid_utf8_u16_ok : modelRangesOk ⟨false, false, false⟩ noNum [97, 255, 98, 58, 32, 99] true = some true := by
   decide +kernel
 
 /-- **counterexample (array end)**: `x: [a;b;c;d]⏎` — with `Range.End` taken from `readerPos` the array's range
     leaves its key's range; taken from `pos` it does not -/
 theorem C02_cx_array_end :
-    modelRangesOk ⟨false, false⟩ noNum [120, 58, 32, 91, 97, 59, 98, 59, 99, 59, 100, 93, 10] false = some false ∧
-    modelRangesOk ⟨false, true⟩ noNum [120, 58, 32, 91, 97, 59, 98, 59, 99, 59, 100, 93, 10] false = some true := by
+    modelRangesOk ⟨false, false, false⟩ noNum [120, 58, 32, 91, 97, 59, 98, 59, 99, 59, 100, 93, 10] false = some false ∧
+    modelRangesOk ⟨false, true, false⟩ noNum [120, 58, 32, 91, 97, 59, 98, 59, 99, 59, 100, 93, 10] false = some true := by
   decide +kernel
 
 /-- **counterexample (substitution)**: `x: ${a}` — the unquoted string ends right after `$`, before its own
     substitution child ends -/
-theorem C02_cx_subst_end : modelRangesOk ⟨false, true⟩ noNum [120, 58, 32, 36, 123, 97, 125] false = some false := by
+theorem C02_cx_subst_end : modelRangesOk ⟨false, true, false⟩ noNum [120, 58, 32, 36, 123, 97, 125] false = some false := by
   decide +kernel
 
 /-- **counterexample (error range)**: `a: \⏎;` — "missing value after colon" starts at column −1 -/
-theorem C02_cx_missing_value : modelRangesOk ⟨false, true⟩ noNum [97, 58, 32, 92, 10, 59] false = some false := by
+theorem C02_cx_missing_value : modelRangesOk ⟨false, true, false⟩ noNum [97, 58, 32, 92, 10, 59] false = some false := by
   decide +kernel
 
 /-- non-vacuity: ordinary inputs, multi-byte and astral included, satisfy the Spec in both modes
     (`é: "😀" -> x`-like text: `é😀: a` as bytes) -/
-example : modelRangesOk ⟨false, true⟩ noNum [195, 169, 240, 159, 152, 128, 58, 32, 97] false = some true ∧
-    modelRangesOk ⟨false, true⟩ noNum [195, 169, 240, 159, 152, 128, 58, 32, 97] true = some true := by
+example : modelRangesOk ⟨false, true, false⟩ noNum [195, 169, 240, 159, 152, 128, 58, 32, 97] false = some true ∧
+    modelRangesOk ⟨false, true, false⟩ noNum [195, 169, 240, 159, 152, 128, 58, 32, 97] true = some true := by
   decide +kernel
 
 /-- **C02_ranges_ok, partial**: what *is* proved about every range the parser can ever record from its reader
